@@ -2,7 +2,8 @@
    must be those of the model's fix applied to the coefficients it reported
    before; no fixed variable may still be mentioned. *)
 From Coq Require Import List ZArith QArith Qcanon Bool Arith.
-From Dimod Require Import Base.Util Model.Poly Model.HPoly.
+From Dimod Require Import Base.Util Model.Poly Model.HPoly Model.FixPy.
+From Dimod Require Model.Expr Model.FixCopy.
 Import ListNotations.
 
 Record case := mkCase {
@@ -17,6 +18,8 @@ Definition mentions_any (fs : list (label * Qc)) (o : obs) : bool :=
 
 Definition check_pair (n : nat) (fs : list (label * Qc)) (ba : obs * obs) : bool :=
   poly_coeff_eqb n (fix_variables fs (obs_poly (fst ba))) (obs_poly (snd ba))
+  (* the generic Python loop of views/quadratic.py (neighbourhood -> linear, offset, remove), code-shaped *)
+  && poly_coeff_eqb n (py_fix_variables fs (obs_poly (fst ba))) (obs_poly (snd ba))
   && negb (mentions_any fs (snd ba)).
 
 Definition check (c : case) : bool := forallb (check_pair (c_n c) (c_fixes c)) (c_pairs c).
@@ -29,3 +32,47 @@ Definition hmentions_any (fs : list (label * Qc)) (p : hpoly) : bool :=
 
 Definition hcheck (c : hcase) : bool :=
   hpoly_eqb (hfix (h_fixes c) (h_before c)) (h_after c) && negb (hmentions_any (h_fixes c) (h_after c)).
+
+(* ---------- CQM, index level: the two code paths on the RAW expression state ----------
+   before / after are the raw states (_iindices, _ilinear, _iquadratic, offset of the objective and of every
+   constraint, varinfo) observed around fix_variable(s); the copying path is run through
+   FixCopy.cqm_fix_variables_copy (constrained_quadratic_model.h fix_variables / fix_variables_expr), the in-place
+   paths through FixCopy.cqm_fix_variables_inplace (substitute_variable(v,0,a) + remove_variable with re-indexing) *)
+Definition mexpr_of_raw (idx : list nat) (lin : list Qc) (quad : list Expr.lqterm) (off : Qc) : Expr.mexpr :=
+  Expr.mkE idx (Expr.rebuild_idx idx) lin quad off.
+
+(* same variable order, same linear vector, same offset, same interactions with the same biases *)
+Definition mexpr_sim (n : nat) (a b : Expr.mexpr) : bool :=
+  list_eqb Nat.eqb (Expr.e_vars a) (Expr.e_vars b)
+  && list_eqb Qc_eqb (Expr.e_lin a) (Expr.e_lin b)
+  && Qc_eqb (Expr.e_off a) (Expr.e_off b)
+  && poly_coeff_eqb n (Expr.abs_expr a) (Expr.abs_expr b)
+  && poly_pairs_eqb n (Expr.abs_expr a) (Expr.abs_expr b).
+
+Definition minfo_eqb (a b : Expr.minfo) : bool :=
+  vartype_eqb (Expr.i_vt a) (Expr.i_vt b) && Qc_eqb (Expr.i_lb a) (Expr.i_lb b) && Qc_eqb (Expr.i_ub a) (Expr.i_ub b).
+
+Definition mcon_sim (n : nat) (a b : Expr.mcon) : bool :=
+  mexpr_sim n (Expr.mc_e a) (Expr.mc_e b)
+  && (Expr.mc_sense a =? Expr.mc_sense b)%nat && Qc_eqb (Expr.mc_rhs a) (Expr.mc_rhs b)
+  && option_eqb Qc_eqb (Expr.mc_weight a) (Expr.mc_weight b) && (Expr.mc_pen a =? Expr.mc_pen b)%nat.
+
+Definition mcqm_sim (n : nat) (a b : Expr.mcqm) : bool :=
+  list_eqb minfo_eqb (Expr.m_info a) (Expr.m_info b)
+  && mexpr_sim n (Expr.m_obj a) (Expr.m_obj b)
+  && list_eqb (mcon_sim n) (Expr.m_cons a) (Expr.m_cons b).
+
+Record ccase := mkCC {
+  cc_case : case;                      (* the coefficient-level observation, checked as before *)
+  cc_copy : bool;                      (* true: fix_variables(inplace=False) ; false: the in-place paths *)
+  cc_fixed : list (nat * Qc);          (* (index in the ORIGINAL model, value), in the order given *)
+  cc_before : Expr.mcqm;
+  cc_after : Expr.mcqm
+}.
+
+Definition ccheck (c : ccase) : bool :=
+  check (cc_case c)
+  && mcqm_sim (length (Expr.m_info (cc_before c)))
+       (if cc_copy c then FixCopy.cqm_fix_variables_copy (cc_fixed c) (cc_before c)
+        else FixCopy.cqm_fix_variables_inplace (cc_fixed c) (cc_before c))
+       (cc_after c).
